@@ -235,6 +235,21 @@ CloseStep(S, f) ==
             !.sock[f] = IF f \in Keeper THEN @ ELSE FreshSock, !.edge[f] = {}]
 ReopenStep(S, f) == [S EXCEPT !.open[f] = TRUE, !.atwait = FALSE]
 
+(* event_reinit(): every backend has need_reinit set, so the backend object is torn down and rebuilt (a new epoll
+   instance: the kernel holds nothing; empty poll array / select sets), the changelist is emptied, and
+   evmap_reinit_ re-adds, fd by fd, the conditions with a non-zero counter (old = 0; edge-triggered iff the first
+   event of the fd is).  Events and counters are untouched. *)
+RECURSIVE ReinitFrom(_, _)
+ReinitFrom(S, f) ==
+  IF f > NFd THEN S
+  ELSE LET events == OldOf(S, f) \cap Supported
+           S1 == IF events = {} THEN S ELSE BackendAdd(S, f, {}, events, IsEpoll /\ UnionET(S, f)).s
+       IN ReinitFrom(S1, f + 1)
+ReinitLegal(S) == \A f \in Fds : ~S.stale[f]
+ReinitStep(S) ==
+  ReinitFrom([S EXCEPT !.kreg = [f \in Fds |-> NoReg], !.cl = <<>>, !.parr = <<>>, !.rset = {}, !.wset = {},
+                       !.atwait = FALSE], 1)
+
 (* the part of dispatch before the system call *)
 PreWait(S) == IF Backend = "epollcl" THEN ApplyChangesFrom(S, 1) ELSE S
 WaitStep(S) == [PreWait(S) EXCEPT !.atwait = TRUE, !.edge = [f \in Fds |-> {}]]
@@ -372,13 +387,18 @@ Env ==
        /\ st' = EnvStep(st, a, f)
        /\ hist' = Append(hist, [a |-> a, fd |-> f, o |-> [r |-> [_any |-> TRUE]]])
 
+Reinit ==
+  /\ "reinit" \in Acts /\ ReinitLegal(st)
+  /\ st' = ReinitStep(st)
+  /\ hist' = Append(hist, [a |-> "reinit", o |-> [r |-> 0]])
+
 Wait ==
   /\ "wait" \in Acts /\ WaitLegal(st)
   /\ st' = WaitStep(st)
   /\ hist' = Append(hist, [a |-> "wait", o |-> [r |-> 0, k |-> KObs(st')]])
 
 Init == st = InitSt /\ hist = <<>>
-Next == EvAdd \/ EvDel \/ CloseFd \/ ReopenFd \/ Env \/ Wait
+Next == EvAdd \/ EvDel \/ CloseFd \/ ReopenFd \/ Env \/ Reinit \/ Wait
 Spec == Init /\ [][Next]_vars
 
 Inv == TypeOK /\ InterestOK /\ CountsOK /\ PollArrayOK /\ ChangelistOK
